@@ -61,6 +61,12 @@ def install_seams() -> None:
                 if env is not None:
                     env.log("state" if k == "connection_state" else "is_connected", conn=self._vf_id, value=v)
 
+        def process_packet(self, msg_type_proto, data):
+            env = CURRENT
+            if env is not None:
+                env.log("deliver", conn=self._vf_id, type=msg_type_proto, n=len(data))
+            return super().process_packet(msg_type_proto, data)
+
     climod.APIConnection = TracedConnection
 
     async def start_connection(addr_infos, *, local_addr_infos=None, happy_eyeballs_delay=None, interleave=None, loop=None):
@@ -126,6 +132,9 @@ class SimTransport(asyncio.Transport):
         self.idx = len(env.transports)
         env.transports.append(self)
         self.n_writes = 0
+        self.reading = False
+        self._early: list = []
+        env.log("transport_new", tr=self.idx, conn=getattr(getattr(proto, "_connection", None), "_vf_id", None), sock=sock.idx)
 
     # --- client side -------------------------------------------------------
     def write(self, data) -> None:
@@ -135,9 +144,14 @@ class SimTransport(asyncio.Transport):
             return
         b = bytes(data)
         self.n_writes += 1
-        self.env.log("write", tr=self.idx, data=b, closing=self.closing)
+        dead = self.sock.closed  # the connection already closed the socket under the transport
+        self.env.log("write", tr=self.idx, data=b, closing=self.closing, dead=dead)
         if self.closing or self.conn_lost_scheduled:
             return  # dropped, like a real closing transport
+        if dead:
+            # sock.send on a closed socket: EBADF -> _fatal_error -> connection_lost(exc); nothing reaches the peer
+            self._force_close(OSError(9, "Bad file descriptor"))
+            return
         if self.write_fail is not None:
             how, exc = self.write_fail
             if how == "raise":
@@ -206,8 +220,19 @@ class SimTransport(asyncio.Transport):
             self.sock.close()
 
     # --- device side -------------------------------------------------------
+    def _start_reading(self) -> None:
+        """The selector transport adds its reader one call_soon after connection_made;
+        whatever the peer sent earlier sits in the kernel buffer until then."""
+        self.reading = True
+        q, self._early = self._early, []
+        for fn, args in q:
+            self.loop.sim_after(0, fn, *args)
+
     def feed(self, data: bytes) -> None:
         """A chunk arrives from the device (one data_received call)."""
+        if not self.reading:
+            self._early.append((self.feed, (data,)))
+            return
         if self.closing:
             self.env.log("feed_dropped", tr=self.idx, n=len(data))
             return
@@ -221,6 +246,9 @@ class SimTransport(asyncio.Transport):
             self._force_close(exc)
 
     def feed_eof(self) -> None:
+        if not self.reading:
+            self._early.append((self.feed_eof, ()))
+            return
         if self.closing:
             return
         self.env.log("eof", tr=self.idx)
@@ -233,6 +261,9 @@ class SimTransport(asyncio.Transport):
             self.close()
 
     def reset(self, exc: BaseException | None = None) -> None:
+        if not self.reading:
+            self._early.append((self.reset, (exc,)))
+            return
         if self.closing:
             return
         self.env.log("reset", tr=self.idx)
@@ -545,6 +576,7 @@ class Env:
         session.transport = tr
         waiter = loop.create_future()
         loop.call_soon(proto.connection_made, tr)
+        loop.call_soon(tr._start_reading)
         loop.call_soon(_set_result_unless_cancelled, waiter)
         try:
             await waiter
